@@ -28,12 +28,14 @@ TRUSTED = ["bindnode assemblers (node.go, repr.go) hand-modelled in coq/Schema/S
            "dag-cbor / dag-json decoders are only a route for the same call sequence (their own behaviour is C03/C04)"]
 RULE = ("random well-formed schemas x {type level, representation level} x (2 conforming + 10 mutated trees: dropped, "
         "repeated, renamed, retyped, reordered, nulled entries; wrong discriminants and kinds; extra/short tuple and "
-        "listpairs entries; unknown enum members) x 2 routes, plus a fixed corpus of witnesses on every route; "
+        "listpairs entries; unknown enum members; every non-conforming stringprefix shape, with and without a "
+        "delimiter) x 2 routes, plus trees in which one struct/union position is filled by AssignNode of a node built "
+        "under a sibling schema type (same Go type, other schema), plus a fixed corpus of witnesses on every route; "
         "distinct = distinct (schema, level, route, tree); non-trivial = schema text longer than 8 characters")
 
 
 def classify(fs):
-    return fs[3] + ":" + fs[4] + ":" + ("ok" if fs[-1].startswith("ok") else fs[-1][:5])
+    return fs[3] + ":" + fs[4].split("|")[0] + ":" + ("ok" if fs[-1].startswith("ok") else fs[-1][:5])
 
 
 def nontrivial(fs):
